@@ -84,11 +84,19 @@ def _tau(op, arg, origin, pt, axis):
 
 
 # ------------------------------------------------------------------------------------------------
-def _build_one(ctx, kind, variant, rational, tag):
+def _build_one(ctx, kind, variant, rational, tag, clamped=True):
     k = KINDS[kind]
     deg, mult = variant
     kvs, sizes = [], []
     for a in range(k['pd']):
+        if not clamped:
+            # unclamped, concrete uniform knots on [0,1]: the shape does not start at its first control point
+            n = deg[a] + 1 + sum(mult[a])
+            m = n + deg[a]
+            U = [ctx.lit(Fraction(i, m)) for i in range(m + 1)]
+            kvs.append(U)
+            sizes.append(n)
+            continue
         U, _inner, n = shapes.make_kv(ctx, deg[a], mult[a], prefix='%sk%s' % (tag, 'uvw'[a]))
         kvs.append(U)
         sizes.append(n)
@@ -218,6 +226,10 @@ def _instances(tier):
                 for inplace in ((False, True) if both else (bool(k % 2),)):
                     out.append(dict(kind=kind, rational=rational, op=op, axis=axis, inplace=inplace, count=0, big=False))
                 k += 1
+    # unclamped knot vectors: the start point of the shape is not its first control point
+    for kind, rational in (('curve3', False), ('curve2', True), ('surface', False)):
+        for op, axis in ((('rotate', None),) if kind == 'curve2' else (('rotate', 0), ('rotate', 2))):
+            out.append(dict(kind=kind, rational=rational, op=op, axis=axis, inplace=True, count=0, big=False, clamped=False))
     # containers of 1-3 shapes
     k = 0
     for kind, counts in (('curve3', (1, 2, 3)), ('curve2', (2,)), ('surface', (1, 3)), ('volume', (2,))):
@@ -235,19 +247,22 @@ def _instances(tier):
                       'abstract.GeomdlBase.__deepcopy__', 'NURBS.Curve.ctrlpts', 'NURBS.Surface.ctrlpts',
                       'NURBS.Volume.ctrlpts', 'linalg.vector_generate'],
           quick=lambda: _instances('quick'), thorough=lambda: _instances('thorough'))
-def affine_map(ctx, kind, rational, op, axis, inplace, count, big):
+def affine_map(ctx, kind, rational, op, axis, inplace, count, big, clamped=True):
     """requires: valid clamped knot vectors, parameters in the domain, positive weights; any vector / factor / angle;
                  count = 0: the bare shape, count = 1..3: a container of that many shapes (different degrees and sizes)
        ensures : every shape of the result evaluates to tau(original point); weights, degrees, sizes, knot vectors
                  unchanged; inplace=False: input unchanged field-wise, new object(s); inplace=True: same object"""
     k = KINDS[kind]
     ops = ctx.geomdl('operations')
-    prm = [shapes.param_in(ctx, nm, ctx.lit(0), ctx.lit(1)) for nm in ('u', 'v', 'w')[:k['pd']]]
-    start = [ctx.lit(0)] * k['pd']
     members = []
     for i in range(max(count, 1)):
         variant = THOROUGH_FIRST[kind] if (big and i == 0) else k['variants'][i]
-        members.append(_build_one(ctx, kind, variant, rational, 'ABC'[i]))
+        members.append(_build_one(ctx, kind, variant, rational, 'ABC'[i], clamped=clamped))
+    # the domain [U[p], U[n]] of each direction (== [0, 1] for the clamped family); the start point is its lower corner
+    m0 = members[0]
+    dom = [(m0['kvs'][a][m0['deg'][a]], m0['kvs'][a][m0['sizes'][a]]) for a in range(k['pd'])]
+    prm = [shapes.param_in(ctx, nm, dom[a][0], dom[a][1]) for a, nm in enumerate(('u', 'v', 'w')[:k['pd']])]
+    start = [dom[a][0] for a in range(k['pd'])]
     if count == 0:
         obj = members[0]['obj']
     else:
